@@ -186,7 +186,7 @@ def run(tier, seed):
     numeral_selftest(run)
     shards = 14 if thorough else 8
     if thorough:
-        cases, r = gen_cases("c05", list(range(2, 37)), seed, 72, 12, 3, 20, 150, 3, [64, 300, 1000], 30, workers=6)
+        cases, r = gen_cases("c05", list(range(2, 37)), seed, 90, 12, 2, 12, 80, 3, [64, 300, 1000], 15, workers=6)
     else:
         cases, r = gen_cases("c05", QUICK_BASES, seed, 40, 12, 6, 80, 600, 3, [64, 300], 20)
     run.add_tlc(r, "MC_NumGen")
